@@ -1454,12 +1454,19 @@ func intToBV(t *Term, w int) *Term {
 	return mkOp(fmt.Sprintf("(_ int2bv %d)", w), sortBV(w), t)
 }
 
-func rangeIter(x value, t types.Type) iter {
+func rangeIter(fr *frame, x value, t types.Type) iter {
 	switch x := x.(type) {
 	case *smap:
 		it := &mapIter{m: x}
 		if x != nil {
 			it.snapshot = append(it.snapshot, x.entries...)
+			// Go randomises map iteration; harnesses for order-sensitive code
+			// explore both insertion order and its reverse (tag set by the harness)
+			if fr.p.tags["maporder-reverse"] {
+				for i, j := 0, len(it.snapshot)-1; i < j; i, j = i+1, j-1 {
+					it.snapshot[i], it.snapshot[j] = it.snapshot[j], it.snapshot[i]
+				}
+			}
 		}
 		return it
 	case string:
